@@ -105,19 +105,8 @@ impl SelectionStrategy {
             }
 
             SelectionStrategy::RoundRobin => {
-                let usable: Vec<usize> = statuses
-                    .iter()
-                    .enumerate()
-                    .filter(|(_, s)| s.is_usable())
-                    .map(|(i, _)| i)
-                    .collect();
-
-                if usable.is_empty() {
-                    None
-                } else {
-                    let idx = round_robin_counter.fetch_add(1, Ordering::Relaxed);
-                    Some(usable[idx % usable.len()])
-                }
+                let eligible: Vec<bool> = statuses.iter().map(|s| s.is_usable()).collect();
+                round_robin_next(&eligible, round_robin_counter)
             }
 
             SelectionStrategy::PreferHealthy => {
@@ -131,6 +120,26 @@ impl SelectionStrategy {
             SelectionStrategy::Custom(selector) => selector(&statuses),
         }
     }
+}
+
+/// Round-robin over positions in the full resource list: returns the first eligible position at
+/// or after the cursor (wrapping around) and moves the cursor just past it.
+///
+/// The cursor remembers *where* the rotation stands, not how many selections were made, so
+/// resources that become eligible or ineligible in between do not renumber the others: every
+/// resource that stays eligible is reached within one lap.
+pub(crate) fn round_robin_next(eligible: &[bool], cursor: &AtomicUsize) -> Option<usize> {
+    let n = eligible.len();
+    if n == 0 {
+        return None;
+    }
+    let mut picked = None;
+    let _ = cursor.fetch_update(Ordering::Relaxed, Ordering::Relaxed, |c| {
+        let start = c % n;
+        picked = (0..n).map(|k| (start + k) % n).find(|&i| eligible[i]);
+        picked.map(|i| i + 1)
+    });
+    picked
 }
 
 #[cfg(test)]
